@@ -53,6 +53,111 @@ func rootGlobal(v ssa.Value, depth int) *ssa.Global {
 	return nil
 }
 
+// globalAliasedParams: parameters of reference type (map, slice, pointer) that some call site
+// binds to memory reachable from a package-level variable (directly or through another such
+// parameter). A write through one of them is a write to the shared table.
+func (pr *Program) globalAliasedParams() map[*ssa.Parameter]*ssa.Global {
+	out := map[*ssa.Parameter]*ssa.Global{}
+	changed := true
+	var rootG func(v ssa.Value, depth int) *ssa.Global
+	rootG = func(v ssa.Value, depth int) *ssa.Global {
+		if depth > 20 {
+			return nil
+		}
+		if g := rootGlobal(v, 0); g != nil {
+			return g
+		}
+		switch x := v.(type) {
+		case *ssa.Parameter:
+			return out[x]
+		case *ssa.FieldAddr:
+			return rootG(x.X, depth+1)
+		case *ssa.IndexAddr:
+			return rootG(x.X, depth+1)
+		case *ssa.UnOp:
+			// load of a spilled parameter cell
+			if a, ok := x.X.(*ssa.Alloc); ok {
+				if p := paramSpill(a); p != nil {
+					return out[p]
+				}
+			}
+			return rootG(x.X, depth+1)
+		case *ssa.Slice:
+			return rootG(x.X, depth+1)
+		case *ssa.ChangeType:
+			return rootG(x.X, depth+1)
+		}
+		return nil
+	}
+	for changed {
+		changed = false
+		for _, f := range pr.Funcs {
+			for _, b := range f.Blocks {
+				for _, in := range b.Instrs {
+					c, ok := in.(*ssa.Call)
+					if !ok {
+						continue
+					}
+					var targets []*ssa.Function
+					if t := c.Call.StaticCallee(); t != nil {
+						targets = []*ssa.Function{t}
+					} else if _, isB := c.Call.Value.(*ssa.Builtin); !isB {
+						targets = pr.dynTargets(c)
+					}
+					for _, t := range targets {
+						if !pr.inPackage(t) {
+							continue
+						}
+						for i, a := range c.Call.Args {
+							if i >= len(t.Params) {
+								break
+							}
+							switch t.Params[i].Type().Underlying().(type) {
+							case *types.Map, *types.Slice, *types.Pointer:
+								if g := rootG(a, 0); g != nil && out[t.Params[i]] == nil {
+									out[t.Params[i]] = g
+									changed = true
+								}
+							}
+						}
+					}
+				}
+			}
+		}
+	}
+	return out
+}
+
+func (pr *Program) writeRootGlobal(v ssa.Value, aliased map[*ssa.Parameter]*ssa.Global, depth int) *ssa.Global {
+	if depth > 20 {
+		return nil
+	}
+	if g := rootGlobal(v, 0); g != nil {
+		return g
+	}
+	switch x := v.(type) {
+	case *ssa.Parameter:
+		return aliased[x]
+	case *ssa.FieldAddr:
+		return pr.writeRootGlobal(x.X, aliased, depth+1)
+	case *ssa.IndexAddr:
+		return pr.writeRootGlobal(x.X, aliased, depth+1)
+	case *ssa.UnOp:
+		if a, ok := x.X.(*ssa.Alloc); ok {
+			if p := paramSpill(a); p != nil {
+				return aliased[p]
+			}
+			return nil
+		}
+		return pr.writeRootGlobal(x.X, aliased, depth+1)
+	case *ssa.Slice:
+		return pr.writeRootGlobal(x.X, aliased, depth+1)
+	case *ssa.ChangeType:
+		return pr.writeRootGlobal(x.X, aliased, depth+1)
+	}
+	return nil
+}
+
 var allowedExternal = map[string]bool{
 	"strings.IndexByte": true, "bytes.IndexByte": true, "strings.Index": true, "strings.Contains": true,
 	"strings.ToUpper": true, "strings.ToLower": true, "strings.ReplaceAll": true, "strings.TrimLeftFunc": true,
@@ -115,6 +220,7 @@ func (pr *Program) modeM() []*Obl {
 	var obls []*Obl
 	tags := []string{"C05"}
 	reach := pr.reachableFrom("IsSQLi", "IsXSS")
+	aliased := pr.globalAliasedParams()
 	var names []string
 	for n := range pr.Funcs {
 		names = append(names, n)
@@ -130,11 +236,14 @@ func (pr *Program) modeM() []*Obl {
 				at := fmt.Sprintf("%s:%d", pr.fileOf(f), line)
 				switch x := in.(type) {
 				case *ssa.Store:
-					if g := rootGlobal(x.Addr, 0); g != nil {
+					if _, isAlloc := x.Addr.(*ssa.Alloc); isAlloc {
+						break
+					}
+					if g := pr.writeRootGlobal(x.Addr, aliased, 0); g != nil {
 						gw = append(gw, fmt.Sprintf("store to %s at %s", g.Name(), at))
 					}
 				case *ssa.MapUpdate:
-					if g := rootGlobal(x.Map, 0); g != nil {
+					if g := pr.writeRootGlobal(x.Map, aliased, 0); g != nil {
 						gw = append(gw, fmt.Sprintf("map update of %s at %s", g.Name(), at))
 					}
 				case *ssa.Go, *ssa.Select, *ssa.Send, *ssa.MakeChan, *ssa.Defer:
@@ -156,7 +265,7 @@ func (pr *Program) modeM() []*Obl {
 						switch bi.Name() {
 						case "append", "copy":
 							if len(x.Call.Args) > 0 {
-								if g := rootGlobal(x.Call.Args[0], 0); g != nil {
+								if g := pr.writeRootGlobal(x.Call.Args[0], aliased, 0); g != nil {
 									gw = append(gw, fmt.Sprintf("%s into %s at %s", bi.Name(), g.Name(), at))
 								}
 							}
@@ -188,7 +297,7 @@ func (pr *Program) modeM() []*Obl {
 			}
 		}
 		if !isInit {
-			obls = append(obls, staticObl(n+"/M/no-global-write", "purity", tags, len(gw) == 0, strings.Join(gw, "; "), "no write to memory reachable from a package-level variable"))
+			obls = append(obls, staticObl(n+"/M/no-global-write", "purity", []string{"C05", "C20"}, len(gw) == 0, strings.Join(gw, "; "), "no write to memory reachable from a package-level variable (directly or through a parameter bound to one)"))
 		}
 		if reach[f] {
 			obls = append(obls, staticObl(n+"/M/no-concurrency-primitives", "purity", tags, len(conc) == 0, strings.Join(conc, "; "), "no go/select/channel/defer/recover"))
@@ -299,6 +408,120 @@ func (pr *Program) onCycle(f *ssa.Function) bool {
 		return false
 	}
 	return walk(f)
+}
+
+// definesObligations: a `defines` clause introduces an uninterpreted function as the meaning of a
+// function's result. It is not proved by the solver; it is justified by determinism and by a
+// read-set argument, which are checked syntactically here (DESIGN.md section 5, mode M).
+func (pr *Program) definesObligations() []*Obl {
+	var obls []*Obl
+	mm := pr.modeM()
+	failedM := map[string][]string{}
+	for _, o := range mm {
+		if o.Status != "discharged" {
+			failedM[o.Func] = append(failedM[o.Func], baseName(o.Name))
+		}
+	}
+	var names []string
+	for n, fc := range pr.Cs.Funcs {
+		if len(fc.Defines) > 0 {
+			names = append(names, n)
+		}
+	}
+	sort.Strings(names)
+	for _, n := range names {
+		fc := pr.Cs.Funcs[n]
+		f := pr.Funcs[n]
+		if f == nil {
+			continue
+		}
+		var why []string
+		for g := range pr.reachableFrom(n) {
+			if bad := failedM[pr.funcName(g)]; len(bad) > 0 {
+				why = append(why, bad...)
+			}
+		}
+		if bad := failedM["package"]; len(bad) > 0 {
+			why = append(why, bad...)
+		}
+		hasStateParam := false
+		for _, p := range f.Params {
+			if pr.heapStructOf(deref(p.Type())) != "" {
+				hasStateParam = true
+			}
+		}
+		switch fc.Justify {
+		case "pureOfParams":
+			if hasStateParam {
+				why = append(why, "has a scanner-state parameter")
+			}
+			// map/slice parameters must be package-level tables at every call site
+			for i, p := range f.Params {
+				switch p.Type().Underlying().(type) {
+				case *types.Map, *types.Slice:
+					for _, g := range pr.Funcs {
+						for _, b := range g.Blocks {
+							for _, in := range b.Instrs {
+								if c, ok := in.(*ssa.Call); ok && c.Call.StaticCallee() == f {
+									if rootGlobal(c.Call.Args[i], 0) == nil {
+										why = append(why, fmt.Sprintf("call in %s passes a non-table %s", pr.funcName(g), p.Name()))
+									}
+								}
+							}
+						}
+					}
+				}
+			}
+		case "readsState":
+			if !fc.HasMod || len(fc.Modifies) != 0 {
+				why = append(why, "needs `modifies nothing`")
+			}
+		case "afterReset":
+			ok := false
+			for _, in := range f.Blocks[0].Instrs {
+				if c, isCall := in.(*ssa.Call); isCall {
+					if cal := c.Call.StaticCallee(); cal != nil && pr.inPackage(cal) {
+						cn := pr.funcName(cal)
+						if (cn == "(*sqliState).reset" || cn == "sqliInit") && pr.Cs.Funcs[cn] != nil {
+							ok = true
+						}
+						break
+					}
+				}
+			}
+			if !ok {
+				why = append(why, "the first call is not reset/sqliInit (with a full-state contract)")
+			}
+		case "freshState":
+			if hasStateParam {
+				why = append(why, "has a scanner-state parameter")
+			}
+			alloc := false
+			for _, b := range f.Blocks {
+				for _, in := range b.Instrs {
+					if a, ok := in.(*ssa.Alloc); ok && a.Heap && pr.heapStructOf(deref(a.Type())) != "" {
+						alloc = true
+					}
+				}
+			}
+			if !alloc {
+				why = append(why, "does not allocate its scanner state")
+			}
+		default:
+			why = append(why, "no justification kind given")
+		}
+		sort.Strings(why)
+		for i, d := range fc.Defines {
+			tags := d.Tags
+			if len(tags) == 0 {
+				tags = []string{"C05"}
+			}
+			o := staticObl(n+"/defines/"+clauseLabel(d, i), "purity", tags, len(why) == 0, firstN(why, 6), "deterministic function of its declared inputs ("+fc.Justify+"): "+d.Text)
+			o.Line = d.Line
+			obls = append(obls, o)
+		}
+	}
+	return obls
 }
 
 // ---------------------------------------------------------------- mode G
